@@ -62,11 +62,14 @@ func c01GetAlphabet() *c01Alphabet {
 			"||example.org^$important",
 			"example$denyallow=x.com",
 			"||h1.test^$client=10.0.0.1,ctag=pc,dnstype=A",
+			"/реклама-x",              // shortcut windows with bytes >= 0x80 (index key is byte-wise)
+			"/ad$domain=co.uk",        // $domain naming a public suffix (ICANN)
+			"/ad$domain=github.io|uk", // private suffix and a TLD
 		}
 		long := "http://example.org/ads?" + strings.Repeat("x", 4070) + "/banner-ads-"
 		urls := []string{"http://example.org/", "https://sub.example.org/ads?x=1", "http://x.com/banner", "http://EXAMPLE.ORG/ADS", "http://example.org/?u=example.org",
-			"http://x.test/" + a.wA + "/", "http://x.test/" + a.wB + "/", "http://example.org/-ads-/ad", "https://y.test/ad", long}
-		srcs := []string{"", "http://example.org/", "http://sub.example.org/", "https://www.google.co.uk/", "http://x.google.agoogle.com/", "http://" + a.hA + "/", "http://" + a.hB + "/", "http://x.com/"}
+			"http://x.test/" + a.wA + "/", "http://x.test/" + a.wB + "/", "http://example.org/-ads-/ad", "https://y.test/ad", "http://x.test/реклама-x?q", long}
+		srcs := []string{"", "http://example.org/", "http://sub.example.org/", "https://www.google.co.uk/", "http://x.google.agoogle.com/", "http://" + a.hA + "/", "http://" + a.hB + "/", "http://x.com/", "http://user.github.io/", "http://a.co.uk/"}
 		for _, u := range urls {
 			for _, s := range srcs {
 				for _, t := range []rules.RequestType{rules.TypeScript, rules.TypeDocument} {
